@@ -2051,49 +2051,15 @@ int cmpfunc(const void *a, const void *b )
 
 void SVD(matrix* m, matrix *U, matrix *S, matrix *VT)
 {
-  size_t i;
-  matrix *w1;
-  matrix *w2;
-  matrix *m_t;
-  matrix *v;
-  dvector *eval1;
-  dvector *eval2;
-  NewMatrix(&w1, m->row, m->row); // A A^T
-  NewMatrix(&w2, m->col, m->col); // A^T A
-  NewMatrix(&m_t, m->col, m->row);
-
-  MatrixTranspose(m, m_t);
-
-  MatrixDotProduct(m, m_t, w1);
-  MatrixDotProduct(m_t, m, w2);
-
-  initDVector(&eval1);
-  initDVector(&eval2);
-
-  initMatrix(&v);
-  EVectEval(w1, eval1, v);
-  EVectEval(w2, eval2, U);
-
-  ResizeMatrix(VT, v->col, v->row);
-  MatrixTranspose(v, VT);
-  ResizeMatrix(S, m->row, m->col);
-
-  /*NewMatrix(&to_sort, (*S)->row, 2);*/
-
-  for(i = 0; i < S->col; i++){
-    if(FLOAT_EQ(eval1->data[i], 0.f, 1e-6) || eval1->data[i] < 0)
-      S->data[i][i] = 0.f;
-    else{
-      S->data[i][i] = sqrt(eval1->data[i]);
-    }
-  }
-
-  DelMatrix(&v);
-  DelMatrix(&m_t);
-  DelDVector(&eval1);
-  DelDVector(&eval2);
-  DelMatrix(&w2);
-  DelMatrix(&w1);
+  /* The left and right vectors used to come from two independent
+   * eigen-decompositions (of A A' and of A'A, moreover stored in each other's
+   * place): their signs and order are unrelated, so U S V' was not A, the factors
+   * were not conformable for rectangular input, wide input was written out of
+   * bounds and singular values below 1e-3 were zeroed. One decomposition gives
+   * consistent factors: m = U S VT with U (row x k), S (k x k), VT (k x col),
+   * k = min(row, col).
+   */
+  SVDlapack(m, U, S, VT);
 }
 
 /* DGESDD prototype */
